@@ -104,9 +104,9 @@ template<Arch ARCH, uint32_t N, int GROUP>
 static void shuffle() {
   constexpr bool kA64 = ARCH == Arch::kAArch64;
   constexpr uint32_t kSp = kA64 ? 31 : 4, kFp = kA64 ? 29 : 5, kIdMask = kA64 ? 31 : 15;
-  uint32_t n = nondet_u8() % (N + 1);
+  uint32_t n = (nondet_u8() % (N + 1), N);
   constexpr uint32_t g = GROUP;                             // one register group per scenario
-  uint32_t stack_arg = nondet_u8() & 7;                     // index of the argument that arrives on the stack (>= n: none)
+  uint32_t stack_arg = (nondet_u8() & 7, 7);                     // index of the argument that arrives on the stack (>= n: none)
 
   // ---- the function as FuncDetail::init would describe it (sources) and the caller's wishes (destinations)
   FuncDetail& fd = g_fd; fd.reset();
@@ -115,12 +115,12 @@ static void shuffle() {
   FuncArgsAssignment& args = g_args; args.reset(&fd);
   uint32_t src_id[N], dst_id[N]; TypeId src_type[N], dst_type[N], exp_type[N]; bool dst_set[N], on_stack[N];
   uint32_t src_mask = 0, dst_mask = 0; bool dup = false, bad_phys = false;
-  bool has_fp = nondet_bool();
+  bool has_fp = (nondet_bool(), false);
   for (uint32_t i = 0; i < N; i++) {
-    src_id[i] = nondet_u8() & kIdMask; dst_id[i] = nondet_u8() & kIdMask;
+    src_id[i] = (nondet_u8() & kIdMask, i); dst_id[i] = (nondet_u8() & kIdMask, (i + 1) % 2);
     src_type[i] = g ? pick_vec_type() : pick_gp_type();
     dst_type[i] = nondet_bool() ? TypeId::kVoid : (g ? pick_vec_type() : pick_gp_type());
-    dst_set[i] = nondet_bool(); on_stack[i] = i == stack_arg;
+    dst_set[i] = (nondet_bool(), true); on_stack[i] = i == stack_arg;
     if (i >= n) { dst_set[i] = false; continue; }
     RegType srt = g ? (kA64 ? (type_size(src_type[i]) == 4 ? RegType::kVec32 : type_size(src_type[i]) == 8 ? RegType::kVec64 : RegType::kVec128) : RegType::kVec128)
                     : (type_size(src_type[i]) <= 4 ? RegType::kGp32 : RegType::kGp64);
